@@ -154,6 +154,19 @@ def direct_forms():
         F.append(('67.66.' + nm, b'\x67\x66', opc, 16, 16))
     for op in (0xEB, 0x74, 0xE2):
         F.append(('66.67.%02x' % op, b'\x66\x67', bytes([op]), 8, 16))
+    # the operand-size prefix twice with another prefix in between (still 16-bit), and three distinct prefixes
+    for mid in (0x2E, 0x67, 0x3E, 0xF2):
+        pf = bytes([0x66, mid, 0x66])
+        nm = '66.%02x.66.' % mid
+        a16 = mid == 0x67
+        F.append((nm + 'e8', pf, bytes([0xE8]), 16, 16))
+        F.append((nm + 'e9', pf, bytes([0xE9]), 16, 16))
+        F.append((nm + '0f85', pf, bytes([0x0F, 0x85]), 16, 16))
+        F.append((nm + 'eb', pf, bytes([0xEB]), 8, 16))
+        F.append((nm + '74', pf, bytes([0x74]), 8, 16))
+    F.append(('2e.66.67.e8', b'\x2e\x66\x67', bytes([0xE8]), 16, 16))
+    F.append(('67.67.e8', b'\x67\x67', bytes([0xE8]), 32, 32))
+    F.append(('66.66.e8', b'\x66\x66', bytes([0xE8]), 16, 16))
     for p in (0x2E, 0x3E):          # branch hints
         F.append(('%02x.74' % p, bytes([p]), b'\x74', 8, 32))
         F.append(('%02x.0f84' % p, bytes([p]), b'\x0f\x84', 32, 32))
